@@ -1,6 +1,6 @@
 (* C02  Header section is well-formed and injection-proof for any supplied text.  Statements only. *)
 From Coq Require Import Strings.String.
-From LV Require Import Base.Bytes Base.Str Base.Res Model.HeaderEnc Spec.Rfc5322 Proofs.HeaderProofs.
+From LV Require Import Base.Bytes Base.Str Base.Res Model.HeaderEnc Spec.Rfc5322 Proofs.HeaderProofs Proofs.StructuredSafeProofs.
 From Coq Require Import Arith PeanoNat Lia.
 
 (* For EVERY name and EVERY value (any byte string: CR, LF, NUL, ':', non-ASCII, any length) the
@@ -13,6 +13,18 @@ Theorem C02_value_safe : forall (name value e : bytes),
   header_value_encode name value = Ok e -> body_safe e.
 Proof. exact header_value_safe. Qed.
 
+(* The same for the structured headers.  Mailbox-list headers (From, To, Cc, Bcc, Reply-To, Sender): for EVERY list
+   of mailboxes whose display names are ANY byte strings (CR, LF, NUL, quotes, backslashes, angle brackets, commas,
+   non-ASCII, any length) and whose address texts are printable, the encoded body is safe in the same sense. *)
+Theorem C02_mailboxes_safe : forall (hname : bytes) (ms : list (option bytes * bytes)) (e : bytes),
+  Forall (fun m => all_p (snd m) = true) ms -> mailboxes_header_encode hname ms = Ok e -> body_safe e.
+Proof. exact mailboxes_header_safe. Qed.
+(* Content-Disposition: for EVERY file name (any octets) and a printable disposition type, the encoded body is safe:
+   no file name can end the line, start a field or put a raw control / 8-bit byte on it - in all three forms
+   (quoted, quoted continuations, percent-encoded continuations). *)
+Theorem C02_content_disposition_safe : forall (kind fname e : bytes),
+  all_p kind = true -> bytes_ok fname = true -> content_disposition_encode kind fname = Ok e -> body_safe e.
+Proof. exact cdisp_safe. Qed.
 (* A header section rendered from any list of fields whose names pass the header-name constructor
    and whose bodies are safe in that sense, followed by the empty line and any body, is read by
    an RFC 5322 field splitter as exactly those fields - same names, same order, unfolded bodies -
@@ -54,3 +66,5 @@ Proof. split; reflexivity. Qed.
 Print Assumptions C02_value_safe.
 Print Assumptions C02_fields.
 Print Assumptions C02_names.
+Print Assumptions C02_mailboxes_safe.
+Print Assumptions C02_content_disposition_safe.
